@@ -341,6 +341,10 @@ def _domain(cfg: Cfg, n_objs: int, noise: bool):
         if cfg.allow_empty_domain and cfg.min_dom == 0 and draw(st.sampled_from(range(12))) == 0:
             return [-1] if (noise and draw(st.booleans())) else []
         n = draw(st.sampled_from(sizes))
+        if not cfg.allow_empty_domain and noise and not cfg.unique_domains:
+            rest = [draw(st.sampled_from(range(lo, n_objs))) if draw(st.sampled_from(range(8))) == 0
+                    else draw(st.sampled_from(range(0, n_objs))) for _ in range(n - 1)]
+            return [draw(st.sampled_from(range(0, n_objs)))] + rest
         if cfg.unique_domains:
             pool = list(range(n_objs)) + ([-1] if noise else [])
             return draw(st.lists(st.sampled_from(pool), min_size=min(n, len(pool)), max_size=min(n, len(pool)), unique=True))
@@ -378,10 +382,18 @@ def query_ir(draw, cfg: Cfg):
     world, ctx.flags = _world(draw, cfg)
     ctx.n_objs = len(world["objs"])
     n_vars = draw(st.integers(1, cfg.max_vars))
+    specials = [j for j, o in enumerate(world["objs"]) if o["cls"] == "SpecialItem"]
     for i in range(n_vars):
         dom = draw(_domain(cfg, ctx.n_objs, cfg.allow_noise))
+        vtype = draw(st.sampled_from(["Item", "Item", "Item", "Item", "Item", "SpecialItem"]))
+        if vtype == "SpecialItem" and not cfg.allow_empty_domain:
+            # by construction: the type filter of let() must leave something in the domain
+            if not specials:
+                vtype = "Item"
+            elif not any(j in specials for j in dom):
+                dom = dom + [draw(st.sampled_from(specials))]
         ctx.vars.append({
-            "type": draw(st.sampled_from(["Item", "Item", "Item", "Item", "Item", "SpecialItem"])),
+            "type": vtype,
             "dom": dom, "gen": draw(st.booleans()) if cfg.allow_generators else False, "local": False, "sub": None,
         })
     scope = [("var", i) for i in range(n_vars)]
@@ -395,7 +407,23 @@ def query_ir(draw, cfg: Cfg):
         sub_cond = ctx.atom([("var", i)])
         if sub_cond["c"] == "bool" and not cfg.allow_subquery_bool_root:
             sub_cond = {"c": "and", "xs": [sub_cond, ctx.atom([("var", i)])]}
-        ctx.vars[i]["sub"] = {"quant": draw(st.sampled_from(["an", "an", "the"])), "cond": sub_cond}
+        quant = draw(st.sampled_from(["an", "an", "the"]))
+        keep = True
+        if not cfg.allow_empty_domain or quant == "the":
+            # by construction: the sub-query must have an answer (exactly one for `the`); checked with the oracle
+            from . import lang
+
+            probe = {"world": world, "vars": [dict(v) for v in ctx.vars], "dvars": [], "conds": [], "sel": {"kind": "entity", "terms": []}}
+            probe["vars"][i] = dict(probe["vars"][i], sub={"quant": quant, "cond": sub_cond})
+            try:
+                n_answers = len(lang.Oracle(probe, lang.build_world(world)).var_domains[i])
+            except Exception:
+                n_answers = 0
+            keep = n_answers == 1 if quant == "the" else n_answers >= 1
+            if not keep and quant == "the" and n_answers > 1:
+                quant, keep = "an", True
+        if keep:
+            ctx.vars[i]["sub"] = {"quant": quant, "cond": sub_cond}
     n_conds = draw(st.sampled_from([0, 1, 1, 1, 1, 1, 1, 2, 2, 2, 3]))
     if cfg.fragment == "c02":
         conds = [ctx.cond_c02(scope, draw(st.integers(0, cfg.depth))) for _ in range(n_conds)]
